@@ -25,7 +25,7 @@ func init() {
 	subcommands["c05worker"] = c05Worker
 }
 
-const mimeVnd = "application/vnd.v+json"
+const mimeVnd = "application/jsonl" // a custom registration whose name contains a built-in one
 
 // absRange is one abstract media range of an Accept header.
 type absRange struct {
